@@ -25,6 +25,10 @@ ERRORS = {
     "undefined-operand-unsized-indirect": ("lda (verif_no_such_symbol),y", None, "node"),
     "undefined-immediate-unsized": ("lda #verif_no_such_symbol + 1", None, "node"),
     "undefined-jump-target": ("jmp verif_no_such_symbol", None, "node"),
+    # characters outside ASCII on the erroneous line (comments in French / Japanese): the quoted text is the line as written, columns count characters
+    "undefined-operand-before-a-non-ascii-comment": ("lda.w verif_no_such_symbol ; d\u00e9j\u00e0 vu \u30c6\u30b9\u30c8", None, "node"),
+    "bad-size-after-a-non-ascii-comment": ("/* caf\u00e9 \u30a2 */ lda.q 0x10", len("/* caf\u00e9 \u30a2 */ lda."), "scan"),
+    "unterminated-string-with-non-ascii-text": (".ascii '\u00e9t\u00e9", 7, "scan"),
     # long source lines (a data table, a long trailing comment): the quoted text is still that line's text, all of it
     "undefined-data-on-a-long-line": (".dw " + ", ".join(hex(0x1000 + 7 * k) for k in range(40)) + ", verif_no_such_symbol", None, "node"),
     "undefined-operand-before-a-long-comment": ("lda.w verif_no_such_symbol ; " + "long trailing comment " * 12 + "end", None, "node"),
@@ -81,7 +85,7 @@ def check(case):
     try:
         if case["included"]:
             inc = os.path.join(d, "inc.s")
-            open(inc, "w").write("\n".join(new))
+            open(inc, "w", encoding="utf-8").write("\n".join(new))
             src = f"; main file\nnop\n.include '{inc}'\nnop\n"
             want_file, want_line = inc, at
         else:
@@ -138,7 +142,7 @@ def run(tier, seed):
                 kinds.add(k)
                 failures.append({"ident": f"bounded/error-location/{c['error']}", "script": "b_C17.py", "payload": c, "observed": f})
     return {"evaluations": len(cases), "distinct_nontrivial": len({str(c) for c in cases}),
-            "rule": "15 erroneous statement kinds (two on lines longer than 250 characters) (undefined symbol in operand with and without size suffix / data directive, bad size suffix incl. at end of line, bad index register, "
+            "rule": "18 erroneous statement kinds (three with characters outside ASCII on the line) (two on lines longer than 250 characters) (undefined symbol in operand with and without size suffix / data directive, bad size suffix incl. at end of line, bad index register, "
                     "unterminated string in .ascii / .db) x every top-level line position (thorough) of 3 base programs with comments, blank lines, blocks, macro "
                     "definitions, multi-line comments, a form feed inside a comment x main file / included file; checks file, zero-based line, quoted text, column",
             "samples": cases[:2], "failures": failures}
